@@ -98,6 +98,16 @@ CLAIMS = {
         design_ref="DESIGN.md §3 C03",
         note="General absence of index/overflow panics and termination of the whole ingress path is NOT decided (needs a relational numeric analysis); only the listed contributors are. Trusted base as C17.",
         technique="static analysis: call-graph audit, guard must-pass-through, interval comparison against check_len, loop progress witnesses over rustc MIR"),
+    'C06': dict(
+        text="Writer/reader agreement of the wire module decided structurally: 156 getter/setter pairs touch the same bytes; 109 pairs agree bit-for-bit (bit-provenance evaluation of masks, shifts, byte order); for 27 Repr types the packet field parse reads into a Repr field is the one emit writes from it; emit/parse cursors only accumulate; IPHC inline fields follow RFC 6282 order on both sides; hop-limit code tables are mutually inverse; 6LoWPAN NHC UDP ports: each compression form reads a port from exactly the bits that carry it; TCP end-of-list fills the option area.",
+        design_ref="DESIGN.md §3 C06",
+        note="Round-trip equality for every Repr value is NOT decided: variable-length option lists, DNS names, DHCP options, address-mode tables of IPHC and value-dependent branches are outside the structural rules (undecided pairs are counted in evidence). Trusted base as C17.",
+        technique="static analysis: bit-provenance abstract evaluation of accessor MIR, reader/writer table cross-check, cursor def-use rule"),
+    'C20': dict(
+        text="6LoWPAN fragment bookkeeping: sent_bytes and datagram_offset advance by exactly the bytes copied, on every path; fragment sizes are multiples of 8 in uncompressed space; FRAG_N size = min(remaining, fragn_size); offset carried in 8-octet units by sender and receiver; datagram_size = payload + 40 and lower-bounded on receipt; IPHC field order and NHC UDP port forms agree between compressor and decompressor (R06.1, R06.4); fragmenter never overwritten while busy (R12.1); reassembly delivery guard (R12.4); frame-derived subtractions guarded (R03.4).",
+        design_ref="DESIGN.md §3 C20",
+        note="Byte-for-byte equality of the reassembled datagram over all address modes / sizes / arrival orders is NOT decided. Trusted base as C17.",
+        technique="static analysis: value-origin / linear-form rules over rustc MIR, bit-provenance cross-check"),
 }
 
 NOT_YET = "structural rules for this property are not built yet in this revision; no static claim is made"
